@@ -704,12 +704,8 @@ def rpc_unconventional_output(spec, op):
 
 def covered_spec(a, msg):
     spec = a["spec"]
-    if "[lazy]" in msg and any(op_uses_simple_typed_part(spec, op) for op in spec["ops"]):
-        return "C17-lazy-namespace-simple-type"
     if "[rpc-out]" in msg and any(rpc_unconventional_output(spec, op) for op in spec["ops"]):
         return "C17-rpc-output-wrapper-name"
-    if "[fault-header]" in msg and any(op.get("out_headers") for op in spec["ops"]):
-        return "C17-fault-needs-output-header"
     return None
 
 
@@ -802,6 +798,10 @@ def check_mapper(a):
                 return f"{base + sfx}: envelope children {names}"
             if any(x.namespace is not None for x in env.attrs):
                 return f"{base + sfx}: Header/Body not in the envelope namespace"
+            # a request must carry its headers; a response may be a bare fault (Header optional, Body required)
+            want_min = [0 if (direction == "out" and n != "Body") else None for n in names]
+            if [x.restrictions.min_occurs for x in env.attrs] != want_min:
+                return f"{base + sfx}: occurrence of envelope children {[(x.name, x.restrictions.min_occurs) for x in env.attrs]}"
             if hdrs:
                 got = [(x.name, x.namespace) for x in inner["Header"].attrs]
                 if got != hdrs:
@@ -1283,15 +1283,6 @@ CORRS = [
 # ======================================================================
 # known findings
 # ======================================================================
-def finding_lazy():
-    s = hand_specs()[2]
-    s = copy.deepcopy(s)
-    s["ops"] = [s["ops"][1]]
-    s["ops"][0]["out"]["name"] = "bResponse"
-    msg = check_e2e({"spec": s})
-    return (bool(msg) and "[lazy]" in msg, msg or "no violation")
-
-
 def finding_rpc_out():
     s = copy.deepcopy(hand_specs()[1])
     s["ops"] = [s["ops"][0]]
@@ -1300,15 +1291,6 @@ def finding_rpc_out():
     return (bool(msg) and "[rpc-out]" in msg, msg or "no violation")
 
 
-def finding_fault_header():
-    s = copy.deepcopy(hand_specs()[2])
-    s["ops"] = [s["ops"][0]]
-    msg = check_e2e({"spec": s})
-    return (bool(msg) and "[fault-header]" in msg, msg or "no violation")
-
-
 FINDINGS = {
-    "C17-fault-needs-output-header": finding_fault_header,
-    "C17-lazy-namespace-simple-type": finding_lazy,
     "C17-rpc-output-wrapper-name": finding_rpc_out,
 }
